@@ -241,6 +241,56 @@ def rule_b(prog, chk):
     chk.floor("C05b", n, 6)
 
 
+# C05e: dropped statuses that cannot manifest (one line of reason each, confirmed by replay)
+C05E_ACCEPTED = {
+    ("KrigingSystem::isReady", "_bayesPreCalculations"): "the pre-calculation fails only when _setInternalShortCutVariablesNeigh / _prepar fail on the whole data set; "
+                                                         "the same stages then fail again for every target, whose estimate is left undefined "
+                                                         "(replays/C05_bayes_precalc_status.cpp: no defined estimate is written)",
+}
+
+
+def rule_e(prog, chk):
+    """C05e - a stage of the kriging of one target that fails (undefined drift value at the target, no valid data ...) stops the
+    estimation of that target: the status of every private stage function of KrigingSystem (int / bool functions with both a
+    success and a failure return) is used by its caller, never dropped.  A dropped status lets the estimation go on with what
+    the PREVIOUS target left in the arrays."""
+    def status_fn(g):
+        if g.body is None or not (g.ret.startswith("int") or g.ret.startswith("bool")):
+            return False
+        vals = set()
+        for r in g.walk():
+            if r["k"] == "Return" and r.get("c") and r["c"][0] is not None and r["c"][0]["k"] in ("Int", "Bool"):
+                vals.add(r["c"][0]["v"])
+        return len(vals) >= 2
+    n = 0
+    for f in sorted(prog.funcs, key=lambda x: (x.file, x.line)):
+        if f.cls != "KrigingSystem" or f.body is None:
+            continue
+        for c in f.calls():
+            if c["k"] != "MCall" or not (c.get("callee") or "").startswith("KrigingSystem::"):
+                continue
+            o = call_obj(c)
+            if o is not None and o["k"] != "This":
+                continue
+            gs = [g for g in prog.fns(c["callee"]) if g.body is not None]
+            if not gs or not all(status_fn(g) for g in gs):
+                continue
+            n += 1
+            par = f.parent(c)
+            while par is not None and par["k"] == "Cast" and "void" not in (par.get("t") or ""):
+                par = f.parent(par)
+            dropped = par is not None and par["k"] in ("Block", "If", "For", "While", "ForRange", "Do", "Else") and not (par["k"] == "If" and par["c"][0] is c)
+            explicit_void = par is not None and par["k"] == "Cast" and "void" in (par.get("t") or "")
+            chk.analysed(f)
+            why = C05E_ACCEPTED.get((f.name, c["callee"].split("::")[-1]))
+            ok = not dropped or explicit_void or bool(why)
+            chk.ob("C05e", "%s: the status of %s is used" % (f.name, c["callee"].split("::")[-1]) + (" (accepted: %s)" % why if why and dropped else ""), f.loc(c), ok,
+                   detail=None if ok else "the stage can fail (undefined drift / value at the target) and its status is dropped: the estimation continues with "
+                   "the arrays of the previous target instead of giving an undefined result",
+                   key="C05e|%s|%s" % (f.name, c["callee"].split("::")[-1]))
+    chk.floor("C05e", n, 8)
+
+
 def main(tier):
     chk = Check("C05", tier,
                 "Static gate completeness: in the anchored algorithms (neighbourhood search, variogram kernels, kriging system, "
@@ -264,6 +314,7 @@ def main(tier):
     rule_a(prog, chk)
     rule_c(prog, chk)
     rule_b(prog, chk)
+    rule_e(prog, chk)
     # C05d: undefined-value tests that leave a loop (every unit that spells such a test is analysed)
     import c05_skip
     if tier == "thorough":
@@ -274,4 +325,5 @@ def main(tier):
         dprog.load_dir(d)
         chk.units += [u for u in dprog.units if u not in chk.units]
     c05_skip.rule_d(dprog, chk, 4)
+    c05_skip.positive_control(chk, "C05d", tier)
     return chk.finish()
